@@ -420,6 +420,9 @@ func runC17(rc *RunCtx) {
 			}
 		}
 		rc.Cov.Cell("C17_roundtrips", "generated")
+		if i%6 == 3 {
+			jsonRouteCheck(rc, gs, out, func() interface{} { return c17Case(gs) })
+		}
 		// and the re-import reproduces the raw store
 		c2, err := chain.New(chain.Config{Genesis: out})
 		if err == nil {
@@ -745,7 +748,7 @@ func runC19(rc *RunCtx) {
 				a := AttesterPool[r.Intn(len(AttesterPool))].Spell(r.Intn(4))
 				op(&ct.MsgDisableAttester{From: e.M.AM, Attester: a}, map[bool]string{true: "attester-remove", false: "attester-remove-missing"}[e.M.Attesters[a]])
 			case 8:
-				d := []string{"uusdc", "UUSDC", "uUsdc", "ueure", "uusdc2"}[r.Intn(5)]
+				d := []string{"uusdc", "UUSDC", "uUsdc", "ueure", "uusdc2", "factory/noble1xyz/usdx", "factory%2fnoble1xyz%2fusdx", "u%75sdc", "ibc/AB", "uusdc%20", "uusdc+"}[r.Intn(11)]
 				if r.Intn(5) == 0 {
 					op(SetMaxAbsentAmount(e.M.TC, d), "limit-set-amount-absent")
 				} else {
